@@ -1,5 +1,7 @@
 (* C38 wire functions.
-   input : [method bufsz hop script]   method 0 GET / 1 HEAD; bufsz = handlerChunkWriteSize; hop = keys of HopHeaders;
+   input : [method bufsz hop script] or [method bufsz hop script [w g]] (flow-control script: the client's initial stream
+           window w and the grant g it sends whenever its window reaches 0; without it the windows never bind)   method 0 GET / 1 HEAD / 2 GET whose request has no END_STREAM (the response is
+           then followed by RST_STREAM NO_ERROR, reported as a trailing frame [3 0]); bufsz = handlerChunkWriteSize; hop = keys of HopHeaders;
            script ops: [1 k v] Set  [2 k v] Add  [3 code] WriteHeader  [4 bytes rep] Write(bytes x rep)  [5] Flush
    output: [frames results]  frames: [1 end [[name value]..]] HEADERS | [2 end bytes] DATA ; results: 0/1 per Write.
    The values of `date` and `content-type` are projected to the empty string (clock / sniffing not modelled). *)
@@ -13,18 +15,26 @@ Definition dec_op (v : val) : option hop_ :=
   | VL [VZ 1; VB k; VB x] => Some (OSet k x)
   | VL [VZ 2; VB k; VB x] => Some (OAdd k x)
   | VL [VZ 3; VZ c] => Some (OWriteHeader c)
-  | VL [VZ 4; VB p; VZ n] => if (0 <=? n) && (n <=? 20000) then Some (OWrite (concat (repeat p (Z.to_nat n)))) else None
+  | VL [VZ 4; VB p; VZ n] => if (0 <=? n) && (n <=? 70000) then Some (OWrite (concat (repeat p (Z.to_nat n)))) else None
   | VL [VZ 5] => Some OFlush
   | _ => None
   end.
 
+(* windows that never bind (the default when the input has no flow-control script) *)
+Definition BIG : Z := 2^40.
+Definition dec_flow (l : list val) : option (Z * Z) :=
+  match l with
+  | [] => Some (BIG, BIG)
+  | [VL [VZ w; VZ g]] => if (0 <? w) && (0 <? g) then Some (w, g) else None
+  | _ => None
+  end.
 Definition dec_input (i : val) : option (env * list hop_) :=
   match i with
-  | VL [VZ m; VZ bsz; hopv; VL sc] =>
-    match as_LB hopv, all_some (map dec_op sc) with
-    | Some hop, Some ops =>
-      if ((m =? 0) || (m =? 1)) && (0 <? bsz) then Some (mkE (m =? 1) bsz hop, ops) else None
-    | _, _ => None
+  | VL (VZ m :: VZ bsz :: hopv :: VL sc :: flow) =>
+    match as_LB hopv, all_some (map dec_op sc), dec_flow flow with
+    | Some hop, Some ops, Some (w, g) =>
+      if ((m =? 0) || (m =? 1) || (m =? 2)) && (0 <? bsz) then Some (mkE (m =? 1) bsz hop (m =? 2) 0 w g, ops) else None
+    | _, _, _ => None
     end
   | _ => None
   end.
@@ -37,14 +47,25 @@ Definition enc_frame (f : frame) : val :=
   | FD e d => VL [VZ 2; vbool e; VB d]
   end.
 
-Definition run_C38 (i : val) : val :=
+(* wroteFrame: when the frame carrying END_STREAM has been written and the request side of the stream is still open,
+   the server resets the stream with NO_ERROR (RFC 7540 8.1): reported as a trailing [3 0] *)
+Definition RST_NO_ERROR : val := VL [VZ 3; VZ 0].
+Definition rst_after (e : env) : list val := if e_open e then [RST_NO_ERROR] else [].
+
+(* the observation for iteration order n of the "Trailer:"-prefixed keys *)
+Definition run_perm (n : Z) (i : val) : val :=
   match dec_input i with
   | Some (e, ops) =>
-    let '(fr, res, _) := run_handler e ops in VL [VL (map enc_frame fr); vLZ res]
+    let e' := with_perm n e in
+    let '(fr, res, _) := run_handler e' ops in
+    VL [VL (map enc_frame (wire_frames (e_grant e') (e_win e') fr) ++ rst_after e'); vLZ res]
   | None => VErr 0
   end.
+Definition run_C38 (i : val) : val := run_perm 0 i.
 
-Definition agree_C38 (i o : val) : bool := val_eqb (run_C38 i) o.
+(* at most three "Trailer:"-prefixed keys are generated: 3! = 6 iteration orders *)
+Definition perms : list Z := [0; 1; 2; 3; 4; 5].
+Definition agree_C38 (i o : val) : bool := existsb (fun n => val_eqb (run_perm n i) o) perms.
 
 (* ---- the property on the implementation's own frames ---- *)
 Definition dec_field (v : val) : option (bytes * bytes) :=
@@ -73,10 +94,15 @@ Definition prop_frames (e : env) (ops : list hop_) (fs : list frame) (res : list
   (length res =? length (write_payloads ops))%nat
   && stream_ok (spec_status ops) (spec_body e ops res) fs.
 
+(* a RST_STREAM(NO_ERROR) after the complete response is allowed (not required) when the request was still open *)
+Definition is_rst_no_error (v : val) : bool := val_eqb v RST_NO_ERROR.
+Definition strip_rst (open : bool) (fv : list val) : list val :=
+  if open then match rev fv with v :: r => if is_rst_no_error v then rev r else fv | [] => fv end else fv.
+
 Definition prop_C38 (i o : val) : bool :=
   match dec_input i, o with
   | Some (e, ops), VL [VL fv; resv] =>
-    match all_some (map dec_frame fv), as_LZ resv with
+    match all_some (map dec_frame (strip_rst (e_open e) fv)), as_LZ resv with
     | Some fs, Some res => prop_frames e ops fs res
     | _, _ => false
     end
